@@ -51,6 +51,22 @@ def gen_startlim(r, tier):
     return ops
 
 
+def gen_ctrl_cfgmin(r, tier):
+    """regulation of never-stop hwmon fans whose minPwm is CONFIGURED, with stall episodes (the controller raises its
+    request): whatever regulation learns, the fan's limits stay the configured ones (seed C13i: the stall workaround wrote
+    its raised minimum into the fan with force)"""
+    import re
+    ops = []
+    for _ in range(60 if tier == "quick" else 1500):
+        case = streams.gen_world_case(r, n_events=40, faults=False, kind="hwmon", ns=1, stall_bias=0.8,
+                                      loop=r.pick([None, "loop=direct m=-"]))
+        m = re.search(r" minp=(\d+)", case[1])
+        if not m:
+            continue
+        ops += [case[0].replace("#case w", "#case w cfgmin"), case[1] + f" cmin={m.group(1)}"] + case[2:]
+    return ops
+
+
 def goint(f):
     if f != f or f in (float("inf"), float("-inf")) or abs(f) >= 2.0**63:
         return -2**63
@@ -92,11 +108,21 @@ class C13(Prop):
             "thorough tier). non-trivial = distinct (kind, configured mask, neverStop, data shape, attach count)")
     assumptions = ["RPM values are compared in whole RPM (Go int(rpm) truncation), as the property states"]
     streams = [Stream("fans", gen_fans, parallel=8), Stream("fanx", gen_fans_exhaustive, parallel=8),
-               Stream("startlim", gen_startlim, parallel=8)]
+               Stream("startlim", gen_startlim, parallel=8), Stream("ctrl-cfgmin", gen_ctrl_cfgmin, parallel=8)]
 
     def oracle(self, name, ops, go):
         out = []
         for cops, cgo in cases(ops, go):
+            if name == "ctrl-cfgmin":
+                if len(cops) < 2 or not cops[1].startswith("w.new"):
+                    continue
+                cmin = int(kv(cops[1])["cmin"])
+                for i, g in enumerate(cgo):
+                    st = kv(g)
+                    if "min" in st and st["min"].lstrip("-").isdigit() and int(st["min"]) != cmin:
+                        out.append(viol(f"the configured minPwm {cmin} was replaced by {st['min']} during regulation", cops, cgo, upto=i))
+                        break
+                continue
             if name == "startlim":
                 data = None
                 for i, (op, g) in enumerate(zip(cops, cgo)):
@@ -186,6 +212,9 @@ class C13(Prop):
         s = set()
         for cops, cgo in cases(ops, go):
             if len(cops) < 2:
+                continue
+            if name == "ctrl-cfgmin":
+                s.add(("cfgmin", kv(cops[1]).get("loop"), min(len(cops) // 10, 5)))
                 continue
             if name == "startlim":
                 d = next((parse_float_map(kv(o)["data"]) for o in cops if o.startswith("su.putrpm")), None) or {}
